@@ -8,7 +8,7 @@
    static   (a)  a predicate whose value is a number but not a literal            -> pred_ok: top type must be boolean
             (b)  and / or with a non-boolean operand                              -> ty_of
             (f)  <, <=, >, >= on anything but numbers                             -> ty_of
-            (i)  the text() function                                              -> ty_of
+            (i)  the text() function (and concat, which the proofs do not cover yet) -> ty_of
             (k)  = / != between values of different kinds (number with string or attribute, boolean with anything else)
             (l)  an axis name that is not one of the eleven generators (AxOther), an unbound or empty prefix   -> deviate = None
    dynamic  (c)  not(@a) / boolean(@a) on a candidate whose attribute a is ""     -> hazard
@@ -52,14 +52,20 @@ Fixpoint ty_of (e : expr) : option ty :=
       else if str_is name FN_not || str_is name FN_boolean then match tys with [Some _] => Some TBool | _ => None end
       else if str_is name FN_contains || str_is name FN_starts_with then
         match tys with [Some a; Some b] => if stringy a && stringy b then Some TBool else None | _ => None end
-      else if str_is name FN_concat then
-        match tys with
-        | _ :: _ :: _ => if forallb (fun t => match t with Some TStr => true | _ => false end) tys then Some TStr else None
-        | _ => None
-        end
       else None
   end.
-Definition pred_ok (e : expr) : bool := match ty_of e with Some TBool => true | _ => false end.
+(* every attribute prefix is declared (an undeclared one is an XPathEvaluationError in delb and an error in XPath) *)
+Definition pfx_ok (m : nsmap) (p : option str) : bool :=
+  match p with Some q => match ns_get m q with Some _ => true | None => false end | None => true end.
+Fixpoint bound (m : nsmap) (e : expr) : bool :=
+  match e with
+  | AnyValue _ => true
+  | AttributeValue p _ | HasAttribute p _ => pfx_ok m p
+  | BooleanOperator _ l r => bound m l && bound m r
+  | Function _ args => (fix go (l : list expr) : bool := match l with [] => true | x :: r => bound m x && go r end) args
+  end.
+Definition pred_ok (m : nsmap) (e : expr) : bool :=
+  match ty_of e with Some TBool => bound m e | _ => false end.
 
 (* ---- dynamic classes, decided on one candidate *)
 Definition tag_attrs (c : nd) : list attr := payload_attrs (ipayload (snd c)).
@@ -115,7 +121,7 @@ Definition step_ok (D : itree) (m : nsmap) (s : step) (n : nd) : bool :=
   | Some a', Some t' =>
       (negb (is_doc n) || downward a)
       && negb (existsb is_doc (r_axis D a' n) && doc_passes_wrongly t)
-      && forallb pred_ok ps
+      && forallb (pred_ok m) ps
       && forallb (fun c => forallb (fun p => negb (hazard m p c)) ps) (filter (r_test t') (r_axis D a' n))
   | _, _ => false
   end.
